@@ -35,7 +35,7 @@ def REAL(**kw):
     return Env("real", **kw)
 
 
-def start_real_growers(env, nb, K, deltas, buf=False, first=1):
+def start_real_growers(env, nb, K, deltas, buf=False, first=1, only=None):
     """real mode: growers are real threads gated step by step on the real disk"""
     from ..realsched import RealSteps
 
@@ -43,7 +43,7 @@ def start_real_growers(env, nb, K, deltas, buf=False, first=1):
     rs.buffered = buf
     rs.install(env, cp)
     rdir = crop_dir(env) + "/results"
-    for g in range(first, nb + 1):
+    for g in (only if only is not None else range(first, nb + 1)):
         gcrop = cp.Crop(name="t", parent_dir=env.parent)
         rs.start_writer((lambda gg, cc: (lambda: cp.grow(gg, crop=cc, verbosity=0)))(g, gcrop),
                         paths={rdir + "/xyz-result-%d.jbdmp" % g})
@@ -51,12 +51,12 @@ def start_real_growers(env, nb, K, deltas, buf=False, first=1):
     return rs
 
 
-def record_growers(env, crop, nb, first=1):
+def record_growers(env, crop, nb, first=1, only=None):
     """run each grower alone from the sown state; return (base files, per-grower logs)"""
     fs = env.fs
     base = dict(fs.files)
     logs = []
-    for g in range(first, nb + 1):
+    for g in (only if only is not None else range(first, nb + 1)):
         fs.files = dict(base)
         fs.start_recording()
         cp.grow(g, crop=crop, verbosity=0)
@@ -93,8 +93,8 @@ def body_wait(E, nb, per, K, base, d0, d1, d2, d3, d4, d5, d6, d7, d8, d9, buf=F
         return out == ref and not env.exists(crop_dir(env))
 
 
-def body_wait_ai(E, K, base, d0, d1, d2, d3, d4, d5, d6, d7, d8, d9, buf=False, ai=True):
-    """batch 1 already finished, batch 2 being grown: reap(wait=True, allow_incomplete=...) waits for the grower
+def body_wait_ai(E, K, base, d0, d1, d2, d3, d4, d5, d6, d7, d8, d9, buf=False, ai=True, pre=1):
+    """batch `pre` (1 or 2) already finished, the other one being grown: reap(wait=True, allow_incomplete=...) waits for the grower
     (`wait` takes priority: Reaper only uses the stand-in `if not wait`) and returns the full direct-run result"""
     K = concretize(K, 2, 3)
     deltas = [d0, d1, d2, d3, d4, d5, d6, d7, d8, d9]
@@ -103,15 +103,16 @@ def body_wait_ai(E, K, base, d0, d1, d2, d3, d4, d5, d6, d7, d8, d9, buf=False, 
         ref = combo_runner(fn, grid(2), verbosity=0)
         crop = cp.Crop(fn=fn, name="t", parent_dir=env.parent, batchsize=1)
         crop.sow_combos(grid(2), verbosity=0)
-        cp.grow(1, crop=crop, verbosity=0)
+        pre = concretize(pre, 1, 2)
+        cp.grow(pre, crop=crop, verbosity=0)
         rs = None
         if env.mode == "sym":
             env.fs.K = K
             env.fs.buffered = cbool(buf)
-            bfiles, logs = record_growers(env, crop, 2, first=2)
+            bfiles, logs = record_growers(env, crop, 2, only=[3 - pre])
             env.fs.begin_timeline(bfiles, logs, deltas)
         else:
-            rs = start_real_growers(env, 2, K, deltas, cbool(buf), first=2)
+            rs = start_real_growers(env, 2, K, deltas, cbool(buf), only=[3 - pre])
         reader = cp.Crop(name="t", parent_dir=env.parent)
         try:
             out = reader.reap(wait=True, allow_incomplete=cbool(ai))
@@ -301,6 +302,17 @@ def searching(body):
                     k2.update(d0=a, d1=b, d2=c)
                     if not body(E, **k2):
                         return False
+        # ... and schedules in which the writer runs ahead (by 1-4 steps) before one single later observation
+        # (the reader of a changed library may make more observations than the stub counted)
+        for pos in range(3, 10):
+            for adv in range(1, 5):
+                k2 = dict(kw)
+                k2.update({"d%d" % q: 0 for q in range(10) if "d%d" % q in kw})
+                if "d%d" % pos not in k2:
+                    continue
+                k2["d%d" % pos] = adv
+                if not body(E, **k2):
+                    return False
         return True
 
     return wrapped
@@ -334,8 +346,8 @@ CONDS = [
               [" and ".join("0 <= d%d <= 4" % i for i in range(6))], timeout=600,
               bounds="a finished batch grown again by a second worker while reap(wait=True) reads it: every "
                      "placement of the reader's observations relative to the second grower's steps"),
-    make_cond(_G, "wait_ai", searching(body_wait_ai), "ai:bool base:int " + _D, [_DR], fixed=dict(K=2), timeout=600,
-              bounds="batch 1 finished, batch 2 being grown (K=2, writes immediate or buffered) while a fresh process "
+    make_cond(_G, "wait_ai", searching(body_wait_ai), "ai:bool pre:int base:int " + _D, [_DR, "1 <= pre <= 2"], fixed=dict(K=2), timeout=600,
+              bounds="one of two batches finished (either one), the other being grown (K=2, writes immediate or buffered) while a fresh process "
                      "calls reap(wait=True, allow_incomplete=True|False): it waits and returns the full result"),
     make_cond(_G, "wait_k3", body_wait, "nb:int base:int " + _D, ["1 <= nb <= 2", _DR], fixed=dict(per=1, K=3),
               timeout=1800, tiers=("thorough",), bounds="as wait/wait2 with K=3 chunks"),
